@@ -26,12 +26,40 @@ use crate::parser::visitor::Visitor;
 /// lines, with one parameter per line.
 const MAX_SIGNATURE_LINE_LEN: usize = 100;
 
+#[cfg(wilfred_garden_verif)]
+thread_local! {
+    /// Verification hook: the phases of the last `format` call as
+    /// (phase name, edits, text after the phase).
+    pub(crate) static VERIF_TRACE: std::cell::RefCell<Vec<(String, serde_json::Value, String)>> =
+        const { std::cell::RefCell::new(vec![]) };
+}
+
+#[cfg(wilfred_garden_verif)]
+fn verif_trace(phase: &str, edits: serde_json::Value, out: &str) {
+    VERIF_TRACE.with(|t| {
+        t.borrow_mut()
+            .push((phase.to_owned(), edits, out.to_owned()))
+    });
+}
+
+#[cfg(wilfred_garden_verif)]
+fn verif_span_edits(span_edits: &[SpanEdit]) -> serde_json::Value {
+    serde_json::Value::Array(
+        span_edits
+            .iter()
+            .map(|e| serde_json::json!([e.start_offset, e.end_offset, e.replacement]))
+            .collect(),
+    )
+}
+
 pub(crate) fn format(src: &str, path: &Path) -> String {
     // Phase 0: Wrap long single-line function/method signatures onto
     // multiple lines before any other formatting. This requires
     // re-parsing afterwards because line numbers and offsets shift.
     let src_owned = wrap_long_signatures(src, path);
     let src = src_owned.as_str();
+    #[cfg(wilfred_garden_verif)]
+    verif_trace("0-wrap-signatures:out", serde_json::Value::Null, src);
 
     let mut id_gen = IdGenerator::default();
     let (_vfs, vfs_path) = Vfs::singleton(path.to_owned(), src.to_owned());
@@ -62,19 +90,47 @@ pub(crate) fn format(src: &str, path: &Path) -> String {
 
     // Phase 4: Apply span edits first (single-line block spacing)
     let src_after_spans = apply_span_edits(src, &mut visitor.span_edits);
+    #[cfg(wilfred_garden_verif)]
+    verif_trace(
+        "4-span-edits",
+        verif_span_edits(&visitor.span_edits),
+        &src_after_spans,
+    );
 
     // Phase 5: Apply indentation edits
     let src_after_indent = apply_indentation_edits(&src_after_spans, &visitor.line_edits);
+    #[cfg(wilfred_garden_verif)]
+    verif_trace(
+        "5-line-edits",
+        serde_json::Value::Array(
+            visitor
+                .line_edits
+                .iter()
+                .map(|e| serde_json::json!([e.line_number, e.new_indent]))
+                .collect(),
+        ),
+        &src_after_indent,
+    );
 
     // Phase 6: Normalize blank lines
     let src_after_blanks = normalize_blank_lines(&src_after_indent, &visitor.toplevel_start_lines);
+    #[cfg(wilfred_garden_verif)]
+    verif_trace(
+        "6-blank-lines",
+        serde_json::json!(visitor.toplevel_start_lines),
+        &src_after_blanks,
+    );
 
     // Phase 7: Fix type annotation spacing
     let src_after_types = fix_type_annotation_spacing(&src_after_blanks, &vfs_path);
+    #[cfg(wilfred_garden_verif)]
+    verif_trace("7-type-annotations:out", serde_json::Value::Null, &src_after_types);
 
     // Phase 8: Normalize spacing around commas, `=>` arrows,
     // compound-assignment operators, and control-flow keywords.
     let mut result = normalize_token_spacing(&src_after_types, &vfs_path);
+    #[cfg(wilfred_garden_verif)]
+    verif_trace("8-token-spacing:out", serde_json::Value::Null, &result);
 
     // Phase 9: Ensure non-empty output ends with exactly one newline.
     while result.ends_with("\n\n") {
@@ -83,6 +139,8 @@ pub(crate) fn format(src: &str, path: &Path) -> String {
     if !result.is_empty() && !result.ends_with('\n') {
         result.push('\n');
     }
+    #[cfg(wilfred_garden_verif)]
+    verif_trace("9-final-newline", serde_json::Value::Null, &result);
 
     result
 }
@@ -878,6 +936,18 @@ fn fix_type_annotation_spacing(src: &str, vfs_path: &crate::parser::vfs::VfsPath
     insert_positions.reverse();
     insert_positions.dedup();
 
+    #[cfg(wilfred_garden_verif)]
+    verif_trace(
+        "7-type-annotations",
+        serde_json::Value::Array(
+            insert_positions
+                .iter()
+                .map(|p| serde_json::json!([p, p, " "]))
+                .collect(),
+        ),
+        "",
+    );
+
     // Apply insertions
     let mut result = src.to_owned();
     for pos in insert_positions {
@@ -968,6 +1038,9 @@ fn normalize_token_spacing(src: &str, vfs_path: &crate::parser::vfs::VfsPathBuf)
         }
     }
 
+    #[cfg(wilfred_garden_verif)]
+    verif_trace("8-token-spacing", verif_span_edits(&edits), "");
+
     apply_span_edits(src, &mut edits)
 }
 
@@ -1025,6 +1098,18 @@ fn wrap_long_signatures(src: &str, path: &Path) -> String {
             replacement,
         ));
     }
+
+    #[cfg(wilfred_garden_verif)]
+    verif_trace(
+        "0-wrap-signatures",
+        serde_json::Value::Array(
+            edits
+                .iter()
+                .map(|(s, e, r)| serde_json::json!([s, e, r]))
+                .collect(),
+        ),
+        "",
+    );
 
     if edits.is_empty() {
         return src.to_owned();
